@@ -121,6 +121,14 @@ pub fn directed() -> Vec<(&'static str, Scn)> {
                 "sched": {"explicit": ["c2s:SYN#0:hold1", "c2s:HSACK#0:hold1", "s2c:ACK#0:drop", "c2s:DATA#2:drop",
                     "c2s:DATA#4:hold2", "s2c:WINUPD#0:drop"]}})),
         ),
+        // the same lost last ACK while its sender's application still holds the
+        // stream: the lingering Closed TCB has to re-ACK the retransmitted FIN
+        (
+            "lost-last-ack-stream-held",
+            scn(json!({"cfg": {}, "c2s": {"total": 5, "wchunks": [5], "rbufs": [4096], "read_pause": 30},
+                "s2c": {"total": 3, "wchunks": [3], "rbufs": [1], "read_pause": 14},
+                "sched": {"explicit": ["c2s:ACK#1:drop"]}})),
+        ),
         // the first data segment overtakes the handshake ACK and completes the
         // handshake itself: its payload counts as delivered
         (
@@ -205,6 +213,7 @@ pub fn dfs_variants(ctx: &Ctx) -> Vec<DfsSpec> {
                         max_drops: 2,
                         d: 2,
                         max_execs,
+                        deadline: Some(ctx.start + std::time::Duration::from_secs_f64(ctx.pick(40.0, 700.0))),
                     });
                 }
             }
@@ -451,16 +460,21 @@ pub fn run(ctx: &Ctx) -> ! {
             scenario_timeout_s: ctx.pick(100.0, 850.0),
         },
         move |i| {
-            // DFS variants first (long poles), then the directed scenarios; the
-            // rest of the index space interleaves fixture runs and walks so that
-            // a budget cut on a slow machine thins out every part alike
-            if i < n_dfs {
-                return run_dfs(&c2, i);
+            // order: directed scenarios, a first block of fixture runs + walks,
+            // the DFS variants (long poles, wall-clock guarded), then the rest
+            // of the fixture runs and walks. A budget cut on a slow machine
+            // thins out the generated parts alike and never skips one entirely.
+            if i < n_dir {
+                return run_directed(i);
             }
-            if i < n_dfs + n_dir {
-                return run_directed(i - n_dfs);
-            }
-            let j = i - n_dfs - n_dir;
+            let first_block = 3_000u64.min(n_walk + n_e2e);
+            let j = if i < n_dir + first_block {
+                i - n_dir
+            } else if i < n_dir + first_block + n_dfs {
+                return run_dfs(&c2, i - n_dir - first_block);
+            } else {
+                i - n_dir - n_dfs
+            };
             let stride = ((n_walk + n_e2e) / n_e2e.max(1)).max(1);
             let e2e_before = (j / stride + 1).min(n_e2e); // e2e slots at j = 0, stride, 2*stride, ...
             if j % stride == 0 && j / stride < n_e2e {
